@@ -662,7 +662,7 @@ def rand_M(rng, thorough, fam="M-random"):
         dvs[i]["dim"] = "other"
         invalid = True
     return {"kind": "M", "fam": fam + ("-invalid-dim" if invalid else ""), "containers": conts, "datavars": dvs,
-            "rewrite": not invalid}
+            "rewrite": True}
 
 
 def rand_W2(rng, thorough, fam="W2"):
@@ -719,9 +719,7 @@ def readm_literal(c, r):
         own = g["idim"] if g["nc"] is not None else 100 + g["ndim"]
         dvs.append(f"({gnat(d['container'])}, [{gnat(200 + i) if d.get('dim') == 'other' else gnat(own)}])")
     if "read_exc" in r:
-        if not r["read_exc"].startswith("ValueError"):
-            return None
-        obs = "None"
+        return None    # the model never raises (Lemmas.read_dataset_total)
     else:
         per = []
         for i, d in enumerate(c["datavars"]):
@@ -762,22 +760,28 @@ def write2_literal(c, r):
 
 def oracle_M(chk, c, r):
     ok = True
-    invalid = any(d.get("dim") == "other" for d in c["datavars"])
     if "read_exc" in r:
-        if invalid and r["read_exc"].startswith("ValueError"):
-            return True    # a data variable that is not on the container's cell dimension: refusal
+        # (also with a data variable that is not on its container's cell dimension: that variable is
+        # read without geometry and reported - /repo f336e6e -, the others keep their cells)
         chk.fail("property", "read-crash", f"reading a dataset whose data variables share geometry containers failed: "
                  f"{r['read_exc']}", {"input": strip_m(c), "observed": r["read_exc"]})
         return False
     for i, d in enumerate(c["datavars"]):
-        if d.get("dim") == "other":
-            continue
         g = c["containers"][d["container"]]
         o = r["obs"].get(f"v{i}")
         if o is None:
             chk.fail("property", "read-no-field", f"data variable v{i} was not read as a field",
                      {"input": strip_m(c), "observed": sorted(r["obs"])})
             ok = False
+            continue
+        if d.get("dim") == "other":
+            # not on the cell dimension: the cells cannot be mapped onto its axes - no geometry
+            if o["coords"]:
+                chk.fail("property", "shared-read-geometry-off-dimension",
+                         f"data variable v{i}, which does not span the cell dimension of container "
+                         f"{d['container']}, was given geometry cells",
+                         {"input": strip_m(c), "expected": "no geometry constructs", "observed": o["coords"]})
+                ok = False
             continue
         ok = presented_ok(chk, g, o, f"cfdm.read, data variable v{i} (of {len(c['datavars'])}) naming container "
                           f"{d['container']} (of {len(c['containers'])})", "shared-read", inp=strip_m(c)) and ok
@@ -789,6 +793,14 @@ def oracle_M(chk, c, r):
         for i, d in enumerate(c["datavars"]):
             g = c["containers"][d["container"]]
             dv = r["raw"]["datavars"].get(f"v{i}")
+            if d.get("dim") == "other":
+                # read without geometry, so written without one
+                if dv is not None:
+                    chk.fail("property", "shared-rewrite-geometry-off-dimension",
+                             f"v{i} (read without geometry) was written with a geometry container",
+                             {"input": strip_m(c), "expected": "no geometry attribute", "observed": dv})
+                    ok = False
+                continue
             if dv is None:
                 chk.fail("property", "shared-rewrite-no-geometry", f"v{i} was written without a geometry container",
                          {"input": strip_m(c), "expected": "a geometry attribute", "observed": r["raw"]["datavars"]})
@@ -1193,7 +1205,7 @@ def run(chk, model_ok):
             if any(d.get("foreign_rep") is not None for d in c["datavars"]):
                 keys.append("M:coordinate-variable-of-another-container")
             if any(d.get("dim") == "other" for d in c["datavars"]):
-                keys.append("M:variable-off-the-cell-dimension" + (":refused" if "read_exc" in r else ":read"))
+                keys.append("M:variable-off-the-cell-dimension" + (":raised" if "read_exc" in r else ":read-without-geometry"))
         elif c["kind"] == "W2":
             keys += [f"W2:fields={len(c['fields'])}", "W2:shared-axis" if c.get("share_axis") else "W2:own-axes"]
             keys += ["W2:second-field:" + m for m in c["modes"]]
